@@ -84,6 +84,9 @@ pub fn tag_fs(mut v: serde_json::Value) -> serde_json::Value {
     if on_std_tmp() {
         v["fs"] = serde_json::json!("std-temp-dir");
     }
+    if dt_unknown_mode() {
+        v["dt_unknown"] = serde_json::json!(true);
+    }
     v
 }
 
@@ -379,5 +382,61 @@ pub fn watchdog(timeout_ms: i32, f: impl FnOnce() -> String) -> Watched {
         Watched::Done(String::from_utf8_lossy(&out).to_string())
     } else {
         Watched::Died(status)
+    }
+}
+
+// ---------------------------------------------------------------------------
+// "the file system does not say what an entry is": with DT_UNKNOWN_MODE on, the code under test
+// runs under the syscall seam and every record of every (real) getdents64 answer has its d_type
+// byte rewritten to DT_UNKNOWN before the caller sees it.
+
+pub static DT_UNKNOWN_MODE: std::sync::atomic::AtomicBool = std::sync::atomic::AtomicBool::new(false);
+pub static RECORDS_REWRITTEN: std::sync::atomic::AtomicU64 = std::sync::atomic::AtomicU64::new(0);
+
+pub fn dt_unknown_mode() -> bool {
+    DT_UNKNOWN_MODE.load(std::sync::atomic::Ordering::SeqCst)
+}
+
+struct RewriteTypes;
+
+impl sysx::Plan for RewriteTypes {
+    fn decide(&mut self, _idx: usize, nr: i64, a: &[u64; 6]) -> sysx::Decision {
+        if nr != libc::SYS_getdents64 {
+            return sysx::Decision::Pass;
+        }
+        let n = unsafe { libc::syscall(libc::SYS_getdents64, a[0], a[1], a[2]) };
+        if n < 0 {
+            return sysx::Decision::Force(-(std::io::Error::last_os_error().raw_os_error().unwrap_or(libc::EIO) as i64));
+        }
+        let buf = unsafe { std::slice::from_raw_parts_mut(a[1] as *mut u8, n as usize) };
+        let mut off = 0usize;
+        while off + 19 <= buf.len() {
+            let reclen = u16::from_ne_bytes([buf[off + 16], buf[off + 17]]) as usize;
+            if reclen == 0 {
+                break;
+            }
+            buf[off + 18] = libc::DT_UNKNOWN;
+            RECORDS_REWRITTEN.fetch_add(1, std::sync::atomic::Ordering::Relaxed);
+            off += reclen;
+        }
+        sysx::Decision::Force(n as i64)
+    }
+}
+
+/// run the code under test, under the type-erasing seam when the mode is on
+pub fn seam<R>(f: impl FnOnce() -> R) -> R {
+    if !dt_unknown_mode() {
+        return f();
+    }
+    let mut plan = RewriteTypes;
+    sysx::run(&mut plan, f).0
+}
+
+/// key suffix / json tag of the mode
+pub fn mode_key(key: &str) -> String {
+    if dt_unknown_mode() {
+        format!("{key}(dt-unknown)")
+    } else {
+        key.to_string()
     }
 }
